@@ -116,6 +116,122 @@ static uint64_t seed_for(int f, int which)
 	return s[which & 3] & wmask(f);
 }
 
+/* ---- messages longer than 4 GiB (len is a uint64_t): counters kept in 32-bit registers would wrap ----
+ * The message is all zero except one byte and lives in a MAP_NORESERVE mapping backed by the shared zero page. The expected value
+ * comes from the bit-serial reference without running it over 4 GiB: for a fixed family, seed -> f(seed, one zero byte) is an
+ * affine map over GF(2) (measured column by column FROM THE REFERENCE, then validated against the reference on short runs);
+ * repeated squaring gives the map for n zero bytes, and f(seed, A||B) = f(f(seed, A), B) is the composition law under test in (C). */
+#include <sys/mman.h>
+struct aff { uint64_t col[64], c; };
+static uint64_t aff_apply(const struct aff *a, uint64_t x)
+{
+	uint64_t r = a->c;
+	for (int i = 0; i < 64; i++)
+		if (x >> i & 1)
+			r ^= a->col[i];
+	return r;
+}
+static void aff_compose(struct aff *o, const struct aff *a, const struct aff *b) /* o = a after b */
+{
+	struct aff t;
+	t.c = aff_apply(a, b->c);
+	for (int i = 0; i < 64; i++)
+		t.col[i] = aff_apply(a, b->col[i]) ^ a->c;
+	*o = t;
+}
+static uint64_t zeros_advance(int f, uint64_t seed, uint64_t n)
+{
+	if (f == F_ADLER) { /* definition: A unchanged, B += n*A (mod 65521) */
+		uint64_t a = seed & 0xffff, b = seed >> 16 & 0xffff;
+		a %= 65521; b %= 65521;
+		b = (b + (n % 65521) * a) % 65521;
+		return b << 16 | a;
+	}
+	static const uint8_t z = 0;
+	struct aff step, acc;
+	memset(&step, 0, sizeof step);
+	step.c = ref_fam(f, 0, &z, 1);
+	for (int i = 0; i < fam_width[f]; i++)
+		step.col[i] = ref_fam(f, 1ull << i, &z, 1) ^ step.c;
+	memset(&acc, 0, sizeof acc);
+	for (int i = 0; i < 64; i++)
+		acc.col[i] = 1ull << i; /* identity */
+	while (n) {
+		if (n & 1)
+			aff_compose(&acc, &step, &acc);
+		aff_compose(&step, &step, &step);
+		n >>= 1;
+	}
+	return aff_apply(&acc, seed) & wmask(f);
+}
+static void huge_part(void)
+{
+	const uint64_t G4 = 1ull << 32, MAPLEN = G4 + (32u << 20);
+	uint8_t *map = mmap(NULL, MAPLEN, PROT_READ | PROT_WRITE, MAP_PRIVATE | MAP_ANONYMOUS | MAP_NORESERVE, -1, 0);
+	if (map == MAP_FAILED) {
+		v_not_exhaustive("huge part: cannot map 4 GiB + 32 MiB of address space");
+		return;
+	}
+	/* validate the zero-run operator against the reference itself */
+	{
+		static uint8_t zz[3000];
+		for (int f = 0; f < F_NFAM; f++)
+			for (int n = 0; n <= 3000; n += (n < 70 ? 1 : 977))
+				for (int s = 0; s < 4; s++)
+					if (zeros_advance(f, seed_for(f, s), n) != (ref_fam(f, seed_for(f, s), zz, n) & wmask(f)))
+						v_broken("zero-run operator disagrees with the reference: family %s n=%d", fam_name[f], n);
+	}
+	char key[256];
+	uint64_t unit = 0;
+	int curlevel = -2;
+	for (int ii = 0; ii < nimpl; ii++) {
+		const struct impl *im = &impls[ii];
+		int f = im->fam;
+		if (f == F_ISCSI || f == F_T10C)
+			continue; /* int length / needs a 4 GiB destination */
+		int slow = strstr(im->name, "_base") != NULL;
+		if (slow && !v_thorough)
+			continue;
+		if (im->level >= 0 && im->level != CPU_AVX512G2 && im->level != CPU_AVX2 && !(v_thorough && im->level == CPU_SSE))
+			continue;
+		const uint64_t lens[] = { G4, G4 + 1, G4 + 4097, G4 + (16u << 20) + 3 };
+		for (unsigned li = 0; li < 4; li++) {
+			if (!v_thorough && li != 1 && li != 3)
+				continue;
+			if (!v_mine(unit++))
+				continue;
+			if (v_deadline_hit())
+				goto out;
+			if (im->level >= 0 && im->level != curlevel) {
+				cpu_set_level(im->level);
+				curlevel = im->level;
+			}
+			uint64_t len = lens[li];
+			const uint64_t pos[] = { len - 1, G4 + 1 < len ? G4 : len - 1, 77 };
+			for (unsigned pi = 0; pi < 3; pi++) {
+				uint64_t q = pos[pi];
+				uint8_t b = 0xA7;
+				uint64_t sd = seed_for(f, 2);
+				uint64_t mid = ref_fam(f, zeros_advance(f, sd, q), &b, 1) & wmask(f);
+				uint64_t expect = zeros_advance(f, mid, len - q - 1);
+				map[q] = b;
+				uint64_t got = call_impl(im, sd, map, len, NULL) & wmask(f);
+				map[q] = 0;
+				v_eval();
+				if (got != expect) {
+					snprintf(key, sizeof key, "%s huge wrong len=2^32%+lld byte-at=len-%llu", im->name, (long long)(len - G4), (unsigned long long)(len - q));
+					v_violation(key, "seed=%llx got %llx expected %llx (message: zeros, one byte a7 at offset %llu)", (unsigned long long)sd, (unsigned long long)got, (unsigned long long)expect, (unsigned long long)q);
+					nfail++;
+				}
+			}
+			v_count("messages_over_4GiB_checked", 3);
+			v_nontrivial(v_mix(0x4619 + ii, li));
+		}
+	}
+out:
+	munmap(map, MAPLEN);
+}
+
 int main(int argc, char **argv)
 {
 	v_init(argc, argv, "C04");
@@ -141,6 +257,12 @@ int main(int argc, char **argv)
 			impls[nimpl++] = (struct impl){ names[nn++], f, entry[f], lvl };
 		}
 
+	if (v_part && !strcmp(v_part, "huge")) {
+		huge_part();
+		if (v_shard == 0)
+			v_note("huge part: messages of 2^32 .. 2^32+16 MiB bytes (zero-page-backed), one non-zero byte at the end / just beyond 4 GiB / near the start; expected values from the reference via the zero-run operator (affine map measured from the reference, repeated squaring)");
+		return v_finish();
+	}
 	int N = v_thorough ? 2200 : 600;
 	int NI = v_thorough ? 300 : 160; /* impulse sweep bound */
 	int NC = v_thorough ? 400 : 200; /* composition bound */
